@@ -95,6 +95,11 @@ def gather_states(tier, run, budget=None, extra_models=True):
             if m not in seen:
                 res.append((m, tr, 'deep-inheritance', ('defaults', 'imports', 'inherit', 'uinherit', 'ns', 'routes', 'unions', 'wrappers'), 3))
         run.bounds['deep_inheritance_models'] = len(dim)
+        prm = profiles.path_route_models()
+        for m, tr in prm:
+            if m not in seen:
+                res.append((m, tr, 'path-routes', ('imports', 'ns', 'routes', 'unions'), 3))
+        run.bounds['path_route_models'] = len(prm)
     return res
 
 
